@@ -198,6 +198,8 @@ DriverClauses(env, a, pd, d) ==
           THEN {"embedded_jsonschema_current"} ELSE {})
     \cup (IF \E m \in SeqToSet(d.meta) : ~m.validates THEN {"objects_validate_against_embedded_schema"} ELSE {})
     \cup (IF d.index_live # d.index_fresh THEN {"index_eq_rebuild"} ELSE {})
+    \* a handle obtained earlier shows the current metadata of its node
+    \cup (IF d.held # <<>> THEN {"held_handles_current"} ELSE {})
     \* uuid, specification version and driver type never change; source and driver describe the wrapped object
     \cup (IF ~d.ident_ok \/ (pd.obs_err = "" /\ pd.ident # d.ident) THEN {"container_identity_stable"} ELSE {})
     ELSE {})
